@@ -566,11 +566,16 @@ func decodeCookieArg(dst, src []byte, skipQuotes bool) []byte {
 }
 
 func getCookieKey(dst, src []byte) []byte {
-	n := bytes.IndexByte(src, '=')
-	if n >= 0 {
+	// the key is in the first part only, as Cookie.ParseBytes reads it: a part
+	// without '=' is the value of a nameless cookie
+	if n := bytes.IndexByte(src, ';'); n >= 0 {
 		src = src[:n]
 	}
-	return decodeCookieArg(dst, src, false)
+	n := bytes.IndexByte(src, '=')
+	if n < 0 {
+		n = 0
+	}
+	return decodeCookieArg(dst, src[:n], false)
 }
 
 func warnIfInvalid(value []byte) bool {
